@@ -137,6 +137,19 @@ func (e *Env) Fail(sig, format string, a ...interface{}) {
 	panic(Failure{})
 }
 
+// FailAt records the first violation together with its location and unwinds the calling task.
+// Tasks of one run may fail "at the same time" (serialised by the simulator): only the first
+// failure is kept, and nothing here is visible to the race detector.
+//
+//go:norace
+func (e *Env) FailAt(at, sig, format string, a ...interface{}) {
+	if !e.failed {
+		e.Res.At = at
+	}
+	e.FailNoUnwind(sig, format, a...)
+	panic(Failure{})
+}
+
 // FailNoUnwind records the first violation.
 //
 //go:norace
